@@ -73,11 +73,13 @@ type pathState struct {
 	notes    []string
 	steps    int64
 	inconcl  int // inconclusive deciding queries
+	inconclFeas int // inconclusive feasibility queries (branch kept)
 	unwind   string
 	symDecs  int
 	outputs  []string
 	known    string
 	forced   []int
+	permuteMaps bool
 	lits     map[int]bool // term id -> asserted polarity (syntactic shortcut)
 }
 
@@ -114,6 +116,7 @@ type Config struct {
 	MaxPaths     int
 	Env          *EnvConfig
 	Params       map[string]int
+	IntMode      bool
 	QueryLog     string // file to log deciding queries for cross-checking
 	Verbose      bool
 }
@@ -124,6 +127,7 @@ type Stats struct {
 	QFeas, QAssert, QEnum, QImplicit int
 	SolverTime                       time.Duration
 	Inconclusive                     int
+	InconclusiveFeas                 int
 	SolverErrors                     int
 	Unwind                           []string
 	EngineErrors                     []string
@@ -147,6 +151,8 @@ type worker struct {
 	qlog   *os.File
 }
 
+var qtrace = os.Getenv("GOSYM_QTRACE") != ""
+
 // ---- interpreter primitives ----
 
 func (i *interpreter) ps() *pathState {
@@ -159,7 +165,14 @@ func (i *interpreter) ps() *pathState {
 func (i *interpreter) check(extra *Term, wantModel bool, kind string) (SatResult, Model) {
 	ps := i.ps()
 	as := append(append([]*Term{}, ps.pc...), extra)
+	tq := time.Now()
 	res, m, script := i.w.solver.Check(as, wantModel)
+	if qtrace {
+		fmt.Fprintf(os.Stderr, "Q %s %s %v at %s\n", kind, res, time.Since(tq), i.where())
+		if time.Since(tq) > 2*time.Second {
+			os.WriteFile(fmt.Sprintf("/tmp/slowq-%d.smt2", time.Now().UnixNano()), []byte(script), 0o644)
+		}
+	}
 	i.w.mu.Lock()
 	switch kind {
 	case "feas":
@@ -243,7 +256,7 @@ func (i *interpreter) truth(c value) bool {
 	if !canT {
 		r, m := i.check(s.T, true, "feas")
 		if r == Unknown {
-			ps.inconcl++ // keeps the branch: sound for "holds"
+			ps.inconclFeas++ // keeps the branch: sound for "holds"
 		}
 		canT = r != Unsat
 		mT = m
@@ -253,7 +266,7 @@ func (i *interpreter) truth(c value) bool {
 	if !canF {
 		r, m := i.check(tt.Not(s.T), true, "feas")
 		if r == Unknown {
-			ps.inconcl++
+			ps.inconclFeas++
 		}
 		canF = r != Unsat
 		mF = m
@@ -379,6 +392,25 @@ func (i *interpreter) stackStrings() []string {
 	return out
 }
 
+// proves reports whether c holds on every model of the path condition.
+func (i *interpreter) proves(c *Term) bool {
+	if c.isConst() {
+		return c.val != 0
+	}
+	r, _ := i.check(i.ps().tt.Not(c), false, "implicit")
+	if r == Unknown {
+		i.ps().inconcl++
+	}
+	return r == Unsat
+}
+
+// chooseInternal forks over 0..n-1 (not an input of the harness: not replayed).
+func (i *interpreter) chooseInternal(n int) int {
+	s := i.freshVar(types.Int, "m")
+	i.assume(vAnd(symBinop("bvsle", int(0), s), symBinop("bvslt", s, int(n))))
+	return i.concretize(s).(int)
+}
+
 // freshVar creates a new symbolic scalar of kind k.
 func (i *interpreter) freshVar(k types.BasicKind, tag string) sv {
 	ps := i.ps()
@@ -467,6 +499,9 @@ func (i *interpreter) assert(c value, label string) {
 			m = mm
 		}
 		i.violation(label, "assertion is false on this path", m)
+		if ps.known != "" {
+			return // a known-finding class: keep checking the rest of the path
+		}
 		panic(pathAbort{"assertion failed"})
 	}
 	s := c.(sv)
@@ -585,6 +620,7 @@ func Explore(p *Program, cfg Config) (*Stats, error) {
 		if err != nil {
 			return nil, err
 		}
+		s.IntMode = cfg.IntMode
 		w := &worker{id: k, solver: s, cfg: &cfg, prog: p, stats: st, mu: &mu, qlog: qlog}
 		wg.Add(1)
 		go func() {
@@ -633,6 +669,7 @@ func (w *worker) runPath(fn *ssaFunc, jb job) (newJobs []job) {
 	i.w = w
 	ps := &pathState{tt: newTermTable(), prefix: prefix, covers: map[string]bool{}, jobModel: jb.Model}
 	i.path = ps
+	ps.tt.i = i
 	i.maxSteps = w.cfg.MaxSteps
 	completed := false
 	var engErr string
@@ -687,6 +724,7 @@ func (w *worker) runPath(fn *ssaFunc, jb job) (newJobs []job) {
 	st.SolverTime += w.solver.Time - t0
 	_ = q0
 	st.Inconclusive += ps.inconcl
+	st.InconclusiveFeas += ps.inconclFeas
 	st.SolverErrors = st.SolverErrors + w.solver.Errors
 	w.solver.Errors = 0
 	if engErr != "" {
@@ -754,7 +792,7 @@ func (st *Stats) Summary() map[string]any {
 		"paths": st.Paths, "aborted": st.Aborted, "nontrivial_paths": st.NontrivialPaths,
 		"queries": map[string]int{"feasibility": st.QFeas, "assertion": st.QAssert, "enumeration": st.QEnum},
 		"solver_time_s": st.SolverTime.Seconds(), "wall_s": st.Wall.Seconds(),
-		"inconclusive": st.Inconclusive, "solver_errors": st.SolverErrors,
+		"inconclusive": st.Inconclusive, "inconclusive_feasibility_kept": st.InconclusiveFeas, "solver_errors": st.SolverErrors,
 		"unwind": st.Unwind, "engine_errors": st.EngineErrors, "covers": st.Covers,
 		"violations": viols, "max_decisions": st.MaxDecs, "samples": st.Samples,
 		"funcs": len(st.FuncsExecuted), "stubs": st.StubsHit,
